@@ -12,6 +12,11 @@ def jobs(tier):
         unwindset=[('vorbis_staticbook_unpack',r'for\(i=0;i<s->entries;\)',eb+7),('vorbis_staticbook_unpack',r'i<quantvals',8*(st-17)+1),('ov_ilog',None,34)],checks=['leak'],
         witnesses=['accepted','accepted with quant values','rejected'],models=BS+['contract stub for _book_maptype1_quantvals (proved by P-quantvals)'],
         functions=['vorbis_staticbook_unpack','vorbis_staticbook_destroy'],bounds='any packet <= %d bytes, entries <= %d, ordered books start at length >= 28'%(st,eb),weight=4))
+    for e0,e1 in ([(6,7)] if q else [(6,6),(6,7),(8,11)]):
+        J.append(Job('K-synth-%d-%d'%(1<<e0,1<<e1),'C02/k_synth.c',defs=['-DE0=%d'%e0,'-DE1=%d'%e1,'-DCH=2'],unwind=66,native_link=['-logg'],
+            witnesses=['long block accepted','trackonly accepted','blocksize'],models=['M-bitpack','mapping decode cut to its verdict'],
+            functions=['vorbis_synthesis','vorbis_synthesis_trackonly','vorbis_packet_blocksize','vorbis_synthesis_halfrate'],
+            bounds='packet 0..2 bytes (prologue is <= 9 bits), modes 1..64, <=2 channels, block sizes (%d,%d)'%(1<<e0,1<<e1),weight=2))
     nb=2 if q else 3
     J.append(Job('S-init-retry','C02/s_init_retry.c',defs=['-DNB=%d'%nb],unwind=max(nb,2)+2,unwindset=[('vorbis_info_clear',r'i<ci->books',nb+1),('ov_ilog',None,34)],checks=['leak'],object_bits=10,
         witnesses=['first init failed','retry failed'],models=['codebook construction cut to "fails or builds" (contract)','M-dsp constructors'],
